@@ -148,6 +148,10 @@ const slotUs = 10_000
 func slot(k int) int { return k * slotUs }
 func far(k int) int  { return 5_000_000 + k*slotUs }
 
+// neverUs: an offset that stands for a deadline in the year 9999 — time.Until saturates, Delay() == math.MaxInt64
+// (a comparator that subtracts two delays overflows against an already expired element)
+const neverUs = 8_000_000_000_000_000
+
 func (g *gen) directed(i int) {
 	r := g.r
 	j := func(lo, hi int) int { return r.Range(lo, hi) }
@@ -251,10 +255,32 @@ func (g *gen) directed(i int) {
 		g.emit(append(ls, "end")...)
 	case 13, 14, 15:
 		g.simultaneous(i % nDirected)
+	case 16:
+		// an element that never expires (Delay() == math.MaxInt64) next to elements that are already expired or expire
+		// soon: the expired one is the earliest and must come out at once, in whichever order they were enqueued
+		a, b, c := g.id(), g.id(), g.id()
+		enq := []string{fmt.Sprintf("t1 0 enq %d %d 100000", a, neverUs), fmt.Sprintf("t1 0 enq %d %d 100000", b, slot(-3)),
+			fmt.Sprintf("t1 0 enq %d %d 100000", c, slot(j(1, 2)))}
+		r.Shuffle(len(enq), func(x, y int) { enq[x], enq[y] = enq[y], enq[x] })
+		for k := range enq { // the three Enqueues keep their (shuffled) order on one thread
+			enq[k] = strings.Replace(enq[k], "t1 0", fmt.Sprintf("t1 %d", j(0, 300)), 1)
+		}
+		ls := append([]string{"new cap=0"}, enq...)
+		ls = append(ls, fmt.Sprintf("t2 %d deq 150000", j(3000, 5000)), fmt.Sprintf("t2 %d deq 150000", j(0, 1000)),
+			fmt.Sprintf("t2 0 deq %d", j(2000, 6000)))
+		g.emit(append(ls, "end")...)
+	case 17:
+		// a consumer parked on the never-expiring head; an expired element arrives and must be handed out
+		a, b := g.id(), g.id()
+		g.emit("new cap=0",
+			fmt.Sprintf("t1 0 enq %d %d 100000", a, neverUs),
+			fmt.Sprintf("t2 %d deq %d", j(500, 2500), longCtx),
+			fmt.Sprintf("t3 %d enq %d %d 100000", j(4000, 7000), b, slot(-2)),
+			"end")
 	}
 }
 
-const nDirected = 16
+const nDirected = 18
 
 // simultaneous: the waiter (long context) and the operation that enables it start at about the SAME instant, so
 // that the enabling broadcast can fall anywhere inside the waiter's call — between its peek and the fetch of the
@@ -707,6 +733,10 @@ func runCase(lines []string) []string {
 				p := vlib.Catch(func() {
 					if c.kind == "enq" {
 						deadline := t0.Add(time.Duration(c.offUs) * time.Microsecond)
+						if c.offUs >= neverUs {
+							// "never": further away than a Duration can express, Delay() saturates at math.MaxInt64
+							deadline = time.Date(9999, 1, 1, 0, 0, 0, 0, time.UTC)
+						}
 						dl = int64(c.offUs) + epochShiftUs
 						if val && c.id == 0 { // velem{}: the offset of the ops line does not apply
 							deadline = zeroDeadline()
